@@ -161,6 +161,21 @@ theorem renewal_carries_roots (h : Host) (hi : Inv h) (cid newcid : Nat) (c : Co
   have ci := hinv newcid _ hst
   exact ⟨_, hst, rfl, rfl, ci.root, ci.size, ci.cap⟩
 
+/-- **a sector store that fails in the middle of an append commits nothing**: if the lookup of any
+requested root fails (whatever the error — also "not found" reported as an error), the append
+leaves the whole host state as it was; an unknown root is never accepted because its lookup failed -/
+theorem store_failure_commits_nothing (h : Host) (cid : Nat) (p : Prices) (chal : Sig) (sectors : List Nat)
+    (second : Option Sig) (r : Nat) (hr : r ∈ sectors) (hfail : h.sectorErr r = true) :
+    (step h (.append cid p chal sectors second)).1 = h ∧ (step h (.append cid p chal sectors second)).2.1.cls ≠ .ok := by
+  have hn : (decideAppend h cid p chal sectors second).eff = .none := by
+    by_cases hn : (decideAppend h cid p chal sectors second).eff = .none
+    · exact hn
+    · have := storeFailure_none sectors [] (decideAppend_store_ok rfl hn) r hr
+      rw [hfail] at this; cases this
+  refine ⟨by simp only [step, Rhp.decide, hn, apply], ?_⟩
+  intro hok
+  exact decideAppend_strict h cid p chal sectors second hok hn
+
 /-! ### listing and reading back -/
 
 /-- a successful sector-roots RPC returns exactly the requested window of the committed roots, the
